@@ -78,7 +78,7 @@ Proof.
     + inversion Hb; subst. eapply OR_file; eauto.
     + destruct cur; discriminate.
     + congruence.
-  - eapply OR_link; eauto. rewrite <- app_assoc. now apply IHos_res.
+  - eapply OR_link; [eassumption|eassumption|assumption|]. rewrite app_assoc. now apply IHos_res.
 Qed.
 
 End OnTree.
